@@ -145,9 +145,18 @@ fn decode_variable<R: Read>(reader: &mut R) -> AvroResult<u64> {
             // if j * 7 > 64
             return Err(Details::IntegerOverflow.into());
         }
-        reader
-            .read_exact(&mut buf[..])
-            .map_err(Details::ReadVariableIntegerBytes)?;
+        reader.read_exact(&mut buf[..]).map_err(|e| {
+            if j > 0 && e.kind() == std::io::ErrorKind::UnexpectedEof {
+                // The input ended inside the number: that is corrupt data, not a clean end of
+                // the input, so don't report it as `UnexpectedEof`.
+                Details::ReadVariableIntegerBytes(std::io::Error::new(
+                    std::io::ErrorKind::InvalidData,
+                    e,
+                ))
+            } else {
+                Details::ReadVariableIntegerBytes(e)
+            }
+        })?;
         i |= (u64::from(buf[0] & 0x7F)) << (j * 7);
         if (buf[0] >> 7) == 0 {
             break;
